@@ -20,6 +20,7 @@ import ToastyVerif.Model.Lookup
 import ToastyVerif.Model.Sample
 import ToastyVerif.Model.Filter
 import ToastyVerif.Gen.Filter
+import ToastyVerif.Model.Mosaic
 
 namespace Driver
 
@@ -685,6 +686,27 @@ def handleFilter (a : List String) : String :=
     | _, _, _ => "bad-op"
   | _ => "bad-op"
 
+/-! ### multi-TAN mosaics: global pixelisation -/
+
+def handleMosaic (a : List String) : String :=
+  match a with
+  | "place" :: ins =>
+    match ins.mapM (fun s => (s.splitOn ",").mapM String.toInt?) with
+    | some rows =>
+      let inputs : List Mosaic.Input := rows.filterMap fun r => match r with
+        | [c1, c2, w, h] => some ⟨c1, c2, w, h, fun _ _ => []⟩
+        | _ => none
+      if inputs.length ≠ rows.length then "bad-op" else
+      match Mosaic.bounds inputs, inputs.getLast? with
+      | some b, some last =>
+        let sz := Mosaic.size b
+        let pl := inputs.map fun i => let p := Mosaic.place b i; s!"{p.1},{p.2.1},{p.2.2.1},{p.2.2.2}"
+        let cp := Gen.MultiTan.global_crpix last.c1 last.c2 (Mosaic.ext last).1 (Mosaic.ext last).2.2.1 b.1 b.2.2.1
+        s!"{sz.1} {sz.2} | {" ".intercalate pl} | {cp.1} {cp.2}"
+      | _, _ => "empty"
+    | none => "bad-op"
+  | _ => "bad-op"
+
 def handle (toks : List String) : String :=
   match toks with
   | "gen" :: op :: args => match ints args with
@@ -708,6 +730,7 @@ def handle (toks : List String) : String :=
   | "toast" :: args => handleToast args
   | "sample" :: args => handleSample args
   | "filter" :: args => handleFilter args
+  | "mosaic" :: args => handleMosaic args
   | _ => "bad-op"
 
 end Driver
